@@ -766,6 +766,7 @@ func (t *tb) loopIdiom(acc *ssa.Phi) (aff, bool) {
 	}
 	// induction variable and bound
 	var iv *ssa.Phi
+	descN := int64(0)
 	for _, in := range hdr.Instrs {
 		p, ok := in.(*ssa.Phi)
 		if !ok {
@@ -781,9 +782,18 @@ func (t *tb) loopIdiom(acc *ssa.Phi) (aff, bool) {
 				iv = p
 			}
 		}
+		// descending: for i := N; i > 0; i--
+		if ok0 && c0 >= 1 && c0 <= 16 && ok1 && bo.X == ssa.Value(p) {
+			if k, ok := t.constVal(bo.Y); ok && ((bo.Op == token.SUB && k == 1) || (bo.Op == token.ADD && k == -1)) {
+				iv, descN = p, c0
+			}
+		}
 	}
 	if iv == nil {
 		return aff{}, false
+	}
+	if descN > 0 {
+		return t.loopIdiomDesc(acc, iv, latch, descN)
 	}
 	iff, ok := lastInstr(hdr).(*ssa.If)
 	if !ok {
@@ -907,6 +917,94 @@ func (t *tb) loopIdiom(acc *ssa.Phi) (aff, bool) {
 				}
 			}
 		}
+	}
+	return aff{}, false
+}
+
+// loopIdiomDesc: for i := N; i > 0; i-- { acc = acc<<8 | T(base[off+i]) } reads the most significant byte first from the
+// highest address: the value is LE(N, base[off+1]).
+func (t *tb) loopIdiomDesc(acc, iv *ssa.Phi, latch int, n int64) (aff, bool) {
+	hdr := acc.Block()
+	iff, ok := lastInstr(hdr).(*ssa.If)
+	if !ok {
+		return aff{}, false
+	}
+	cond, ok := iff.Cond.(*ssa.BinOp)
+	if !ok || cond.Op != token.GTR || cond.X != ssa.Value(iv) {
+		return aff{}, false
+	}
+	if k, isK := t.constVal(cond.Y); !isK || k != 0 {
+		return aff{}, false
+	}
+	if w, _, isInt := intBits(acc.Type()); !isInt || 8*n > int64(w) {
+		return aff{}, false
+	}
+	sub := newTB(t.res)
+	sub.depth, sub.tables = t.depth, t.tables
+	for k, v := range t.names {
+		sub.names[k] = v
+	}
+	for k, v := range t.subst {
+		sub.subst[k] = v
+	}
+	for k, v := range t.ssub {
+		sub.ssub[k] = v
+	}
+	sub.names[iv] = "@i"
+	sub.small = map[ssa.Value]bool{iv: true}
+	e, ok := acc.Edges[latch].(*ssa.BinOp)
+	if !ok || (e.Op != token.OR && e.Op != token.ADD) {
+		return aff{}, false
+	}
+	unconv := func(v ssa.Value) ssa.Value {
+		for {
+			if cv, isC := v.(*ssa.Convert); isC {
+				if _, _, isInt := intBits(cv.Type()); isInt {
+					v = cv.X
+					continue
+				}
+			}
+			return v
+		}
+	}
+	for _, pair := range [][2]ssa.Value{{e.X, e.Y}, {e.Y, e.X}} {
+		sh, ok := unconv(pair[0]).(*ssa.BinOp)
+		if !ok || unconv(sh.X) != ssa.Value(acc) {
+			continue
+		}
+		isShift := false
+		if k, isK := t.constVal(sh.Y); isK && ((sh.Op == token.SHL && k == 8) || (sh.Op == token.MUL && k == 256)) {
+			isShift = true
+		}
+		if !isShift {
+			continue
+		}
+		u, ok := unconv(pair[1]).(*ssa.UnOp)
+		if !ok || u.Op != token.MUL {
+			continue
+		}
+		ia, ok := u.X.(*ssa.IndexAddr)
+		if !ok {
+			continue
+		}
+		if bits, uns, isInt := intBits(u.Type()); !isInt || !uns || bits != 8 {
+			continue
+		}
+		idx := sub.term(ia.Index)
+		if !idx.ok || idx.syms["@i"] != 1 {
+			continue
+		}
+		off := idx.add(affAtom("@i"), -1).add(affConst(1), 1)
+		if strings.Contains(off.String(), "@") {
+			continue
+		}
+		base := sub.sliceTerm(ia.X)
+		if n == 1 {
+			a := t.atomOf("%s[%s]", base, off)
+			byteAtoms.Store(a.String(), true)
+			return a, true
+		}
+		return t.atomOf("LE(%d,%s[%s])", n, base, off), true
 	}
 	return aff{}, false
 }
